@@ -222,6 +222,94 @@ def bc_validate(rep, hv, name, items, max_steps=8000):
     return out
 
 
+def flatten_ir(block):
+    """Lays the structured IR out flat (see IR.tla): Loop = jz END; body; mov shift; jmp HEAD,
+    If = jz END; body; mov shift."""
+    code = []
+
+    def tree(t):
+        if t[0] == "i":
+            return ["i", t[1]]
+        if t[0] == "m":
+            return ["m", t[1]]
+        return [t[0], tree(t[1]), tree(t[2])]
+
+    def emit(b):
+        for ins in b["insts"]:
+            k = ins[0]
+            if k in ("out", "inp"):
+                code.append([k, ins[1]])
+            elif k == "calc":
+                code.append(["calc", [[var, tree(t)] for var, t in ins[1]]])
+            elif k in ("loop", "if"):
+                head = len(code)
+                code.append(["jz", ins[1], None])
+                emit(ins[2])
+                code.append(["mov", ins[2]["shift"]])
+                if k == "loop":
+                    code.append(["jmp", head])
+                code[head][2] = len(code)
+    emit(block)
+    return code
+
+
+def ir_validate(rep, hv, name, items, max_steps=12000):
+    """items: (key, case, level, canonical log).  The optimised IR held by the IR
+    interpreter (hook verif_program) runs inside TLC (IR.tla) against the canonical log."""
+    from . import tlc
+    from .common import workdir, NCPU
+    if not items:
+        return {}
+    reqs = [{"op": "dumpir", "id": str(k), "prog": c["prog"], "w": c["w"], "level": lvl}
+            for k, (key, c, lvl, logv) in enumerate(items)]
+    dumps = pool.simple_requests(hv, reqs, timeout=120.0)
+    cases, keys = [], {}
+    for k, ((key, c, lvl, logv), d) in enumerate(zip(items, dumps)):
+        if not d or "ir" not in d:
+            continue
+        cid = "i%d" % k
+        keys[cid] = key
+        cases.append({"id": cid, "w": c["w"], "input": c["input"], "log": logv, "code": flatten_ir(d["ir"])})
+    path = os.path.join(workdir(name), "ir-cases.ndjson")
+    tlc.write_ndjson(path, cases)
+    res = tlc.run_tlc("IR", env={"CASES": path, "MAXSTEPS": max_steps}, workers=max(2, NCPU - 2), timeout=1800)
+    rep.add_tlc(res)
+    out = {}
+    for r in res.records:
+        if "verdict" in r and r["id"] in keys:
+            out[keys[r["id"]]] = r
+    return out
+
+
+def ir_cross_check(rep, bins, prop, judged, limit):
+    """Execution-free second opinion on the optimiser: the optimised IR of accepted cases,
+    run inside TLC (IR.tla), must emit the canonical log.  A disagreement while the real
+    interpreter produced the canonical log is model drift (INFO), never a violation."""
+    hv = bins["release"]
+    seen, items = set(), []
+    for case, runs, t, v, prof in judged:
+        if v["verdict"] != "accepted" or t["claim"] != "complete" or v["steps"] < 10:
+            continue
+        for r in runs:
+            if r.get("backend") != "irint" or r.get("level", 0) == 0:
+                continue
+            key = (case["id"], r["level"])
+            if key not in seen:
+                seen.add(key)
+                items.append((key, case, r["level"], t["log"]))
+    random.Random(seed()).shuffle(items)
+    items = items[:limit]
+    verd = ir_validate(rep, hv, prop + "-ir", items)
+    rej = [(k, v) for k, v in verd.items() if v["verdict"] == "rejected"]
+    rep.coverage["ir_model_cross_check"] = {
+        "optimised_programs_run_in_TLC": len(verd),
+        "accepted": sum(1 for v in verd.values() if v["verdict"] == "accepted"),
+        "inconclusive": sum(1 for v in verd.values() if v["verdict"] == "inconclusive"),
+        "model_drift": len(rej)}
+    for k, v in rej[:5]:
+        rep.info("model-drift IR.tla vs real irint on case %s level %d: %s" % (k[0], k[1], v["why"][:200]))
+
+
 def bytecode_cross_check(rep, bins, prop, backend, judged, limit):
     """Execution-free second opinion on the translator: the bytecode of accepted
     cases, run inside TLC (BC.tla), must emit the canonical log too.  A disagreement
@@ -253,11 +341,13 @@ def bytecode_cross_check(rep, bins, prop, backend, judged, limit):
 
 
 def localise(rep, bins, rejected):
-    """For rejected recordings of bytecode backends: does the bytecode itself (BC.tla)
-    reproduce the canonical log?  yes -> the executor is at fault, no -> the optimiser
-    or the bytecode generator."""
+    """For rejected recordings of the IR-based backends: where does the canonical behaviour
+    get lost?  The optimised IR (IR.tla) and the bytecode (BC.tla) of the failing
+    configuration are run inside TLC against the canonical log:
+    IR differs -> optimiser; IR fine, bytecode differs -> bytecode generator;
+    both fine -> the executor (irint.rs / ops.rs / JIT)."""
     hv = bins["release"]
-    cand = [(i, r) for i, r in enumerate(rejected) if r[1].get("backend") in ("bcint", "jit")
+    cand = [(i, r) for i, r in enumerate(rejected) if r[1].get("backend") in ("irint", "bcint", "jit")
             and r[1].get("mode", "exec") == "exec"][:10]
     if not cand:
         return {}
@@ -266,17 +356,30 @@ def localise(rep, bins, rejected):
     ex = bf.execute(hv, cases, lambda c: [{"backend": "inplace", "level": 0}])
     jd = adjudicate(rep, "LOC", bins, "release", ex, name="localise")
     canon = {case["id"]: t["log"] for case, runs, t, v, prof in jd if v["verdict"] == "accepted"}
-    items = []
+    ir_items, bc_items = [], []
     for i, r in cand:
         cid = "loc%d" % i
-        if cid in canon:
-            items.append((i, dict(r[0], id=cid), r[1]["backend"], r[1].get("level", 0), canon[cid]))
-    verd = bc_validate(rep, hv, "localise", items)
+        if cid not in canon:
+            continue
+        c2 = dict(r[0], id=cid)
+        ir_items.append((i, c2, r[1].get("level", 0), canon[cid]))
+        if r[1]["backend"] in ("bcint", "jit"):
+            bc_items.append((i, c2, r[1]["backend"], r[1].get("level", 0), canon[cid]))
+    irv = ir_validate(rep, hv, "localise", ir_items)
+    bcv = bc_validate(rep, hv, "localise", bc_items)
     out = {}
-    for i, v in verd.items():
-        out[i] = ("bytecode (BC.tla) emits the canonical log: the executor misbehaves" if v["verdict"] == "accepted"
-                  else "bytecode (BC.tla) already differs from the canonical log: optimiser or bytecode generator "
-                       "(%s)" % v["why"][:160]) if v["verdict"] != "inconclusive" else "inconclusive"
+    for i, r in cand:
+        a, b = irv.get(i), bcv.get(i)
+        if a is None or a["verdict"] == "inconclusive":
+            continue
+        if a["verdict"] == "rejected":
+            out[i] = "optimised IR (IR.tla) already differs from the canonical log: optimiser (%s)" % a["why"][:140]
+        elif b is None:
+            out[i] = "optimised IR (IR.tla) emits the canonical log: the IR interpreter misbehaves"
+        elif b["verdict"] == "rejected":
+            out[i] = "IR fine, bytecode (BC.tla) differs from the canonical log: bytecode generator (%s)" % b["why"][:140]
+        elif b["verdict"] == "accepted":
+            out[i] = "IR and bytecode (IR.tla, BC.tla) emit the canonical log: the executor misbehaves"
     return out
 
 
@@ -327,6 +430,8 @@ def run_equivalence(prop, tier, backend_runs, pops, per_pop, profiles=("release"
                             "chosen case is validated by TLC against BF.tla (BFTrace); all cases on which "
                             "recordings differ are chosen, agreeing ones are sampled (prescreened counts all runs)"
                             % (",".join(pops), "/".join(profiles)))
+    if prop == "C01" and not os.environ.get("VERIF_CASES"):
+        ir_cross_check(rep, bins, prop, judged, 400 if tier == "quick" else 6000)
     if prop in ("C02", "C03") and not os.environ.get("VERIF_CASES"):
         bytecode_cross_check(rep, bins, prop, "bcint" if prop == "C02" else "jit", judged,
                              400 if tier == "quick" else 6000)
